@@ -3356,7 +3356,6 @@ class Session(object):
                     host, conn_exc, is_host_addition, expect_host_to_be_down=True)
                 return False
 
-            previous = self._pools.get(host)
             with self._lock:
                 if self.is_shutdown:
                     # the session was shut down while this pool was being created
@@ -3380,6 +3379,8 @@ class Session(object):
                         self._lock.acquire()
                         return False
                     self._lock.acquire()
+                # read under the lock: another pool-creation task for the same host may have finished meanwhile
+                previous = self._pools.get(host)
                 self._pools[host] = new_pool
 
             log.debug("Added pool for host %s to session", host)
